@@ -782,7 +782,7 @@ func (ex *Exec) frameCheck(st *State, env *Env, fc *FuncContract) {
 		if !ok {
 			old = ex.heap(ex.entry, name, cur.Sort)
 		}
-		if cur.S == old.S || whole[name] {
+		if cur.S == old.S || whole[name] || name == "ghost:atomic.Value.loads" {
 			continue
 		}
 		if strings.HasPrefix(cur.Sort, "(Array") && onlyFreshStores(cur.S, old.S) {
